@@ -44,7 +44,8 @@ func init() {
 	register(&Rule{
 		ID:    "AFF-5",
 		Doc:   "Y assignment: the value stored into Node.Y is the running y of the outer (per-layer) loop, invariant in the inner (per-node) loop; y0 = 0 and y' - y = layer.H + LayerSpacing",
-		Floor: 3,
+		Floor: 4,
+		Ctl:   []string{"internal__phase4__aff5.go.txt"},
 		Run:   runAff5,
 	})
 	register(&Rule{
